@@ -17,7 +17,7 @@ def coq_natlist(xs): return "[" + "; ".join(str(int(x)) for x in xs) + "]"
 def p2_term(c):
     sl = "; ".join("(%s, %s, (%d, %d, %d, %d))" % (s["order"], s["labels"], s["dec"], s["w"], s["c"], s["sent"]) for s in c["slices"])
     st = "; ".join("(%s, %s, %s, %d)" % (coq_natlist(s["ok"]), coq_natlist(s["got"]), coq_bool(s["spent"]), s["probe"]) for s in c["streams"])
-    return "([%s], [%s], %d, %s)" % (sl, st, c["ends"], coq_bool(c["done"]))
+    return "([%s], [%s], (%d, %d), %s)" % (sl, st, c["ends"], c["expect_ends"], coq_bool(c["done"]))
 
 def coq_ev(n):
     n = int(n)
@@ -102,7 +102,7 @@ def run_harness(binp, jobs, outdir):
 
 def check_C08(run, replay=None):
     tier = run.tier
-    C.proof_stage(run, "C08")
+    C.proof_stage(run, "C08", extra_targets=["Conc/Check.vo"])
     ok, log, bins = C.harness_build(["conc_run"])
     run.oblige("harness-build conc_run from the repository working tree (--cfg crux_verif)", ok, log[-1500:])
     if not ok:
